@@ -1,12 +1,14 @@
 package main
 
 import (
+	"errors"
 	"fmt"
 	"iter"
 	"slices"
 	"strconv"
 	"strings"
 	"sync"
+	"sync/atomic"
 	"time"
 
 	"reduction.dev/reduction/dkv"
@@ -220,13 +222,56 @@ func parseC07Header(h string) c07Cfg {
 var c07Seq int
 var c07Mu sync.Mutex
 
+// c07FailFS is the database's FileSystem with one injectable fault: once armed (`failnext`), the next table file
+// that is saved fails (`tableWriter.Write` returns the error, the flush or compaction task returns it before its
+// commit section). `failed` tells the scheduler that the running task is on its way out.
+type c07FailFS struct {
+	storage.FileSystem
+	arm    atomic.Bool
+	failed chan struct{}
+}
+
+func (f *c07FailFS) New(path string) storage.File {
+	file := f.FileSystem.New(path)
+	if strings.HasSuffix(path, ".sst") {
+		return &c07FailFile{File: file, fs: f}
+	}
+	return file
+}
+
+type c07FailFile struct {
+	storage.File
+	fs *c07FailFS
+}
+
+func (f *c07FailFile) Save() error {
+	if f.fs.arm.CompareAndSwap(true, false) {
+		select {
+		case f.fs.failed <- struct{}{}:
+		default:
+		}
+		return errors.New("c07: injected table write failure")
+	}
+	return f.File.Save()
+}
+
+// tookFailure reports (and consumes) the signal of an injected table write failure.
+func (f *c07FailFS) tookFailure() bool {
+	select {
+	case <-f.failed:
+		return true
+	default:
+		return false
+	}
+}
+
 // runDkvTrace executes the ops on a real dkv.DB under the hook scheduler and returns one output per op.
 func runDkvTrace(c lib.Case) []string {
 	c07Mu.Lock() // one DB at a time: the flush/compaction queues and the hook handler are process-global
 	defer c07Mu.Unlock()
 	cfg := parseC07Header(c.Header)
 	c07Seq++
-	fs := storage.NewMemoryFilesystem().WithWorkingDir(fmt.Sprintf("c07-%d", c07Seq))
+	fs := &c07FailFS{FileSystem: storage.NewMemoryFilesystem().WithWorkingDir(fmt.Sprintf("c07-%d", c07Seq)), failed: make(chan struct{}, 4)}
 	db := dkv.New(dkv.DBOptions{FileSystem: fs, MemTableSize: uint64(cfg.mem), TargetFileSize: uint64(cfg.target), L0TableNumCompactionTrigger: cfg.l0})
 	comp := db.VerifCompactor()
 	comp.MaxSizeAmplificationPercent = cfg.maxAmp
@@ -263,6 +308,10 @@ func runDkvTrace(c lib.Case) []string {
 			continue
 		}
 		switch f[0] {
+		case "failnext":
+			// the next table file that is saved (by a flush or by a compaction) fails
+			fs.arm.Store(true)
+			out = append(out, "armed")
 		case "scanget":
 			// the call returns (it does not park between its phases: holdRead is off); the sequence is consumed later
 			heldErr = new(error)
@@ -397,11 +446,35 @@ func runDkvTrace(c lib.Case) []string {
 				}
 				if t.label == "dkv.flush.begin" {
 					s.release("flush")
-					if s.waitParked("flush") == nil {
-						out = append(out, "timeout")
-						continue
+					// the task parks at its commit, or an injected table write failure ends it before the commit (then
+					// the next queued flush task, if any, may already be parked at its begin)
+					got := ""
+					deadline := time.Now().Add(schedGrace)
+					for got == "" {
+						if fs.tookFailure() {
+							got = "failed"
+							break
+						}
+						s.mu.Lock()
+						p := s.parked["flush"]
+						s.mu.Unlock()
+						if p != nil && p.label == "dkv.flush.commit" {
+							got = "parked"
+						} else if time.Now().After(deadline) {
+							got = "timeout"
+						} else {
+							time.Sleep(20 * time.Microsecond)
+						}
 					}
-					out = append(out, fmt.Sprintf("flushbegin %d", n))
+					switch got {
+					case "parked":
+						out = append(out, fmt.Sprintf("flushbegin %d", n))
+					case "failed":
+						flushQ--
+						out = append(out, fmt.Sprintf("flushfail %d", n))
+					default:
+						out = append(out, "timeout")
+					}
 				} else {
 					s.release("flush")
 					if s.waitEvent("dkv.flush.done") == "timeout" {
@@ -447,6 +520,10 @@ func runDkvTrace(c lib.Case) []string {
 							continue
 						default:
 						}
+						if fs.tookFailure() {
+							got = "failed" // Compact returned the injected error: the task is over, nothing was committed
+							continue
+						}
 						s.mu.Lock()
 						p := s.parked["compact"]
 						s.mu.Unlock()
@@ -465,6 +542,9 @@ func runDkvTrace(c lib.Case) []string {
 						out = append(out, "compactidle")
 					case "parked":
 						out = append(out, "compactbegin")
+					case "failed":
+						compactQ--
+						out = append(out, "compactfail")
 					default:
 						out = append(out, "timeout")
 					}
@@ -606,6 +686,9 @@ func genDkvRanged(r *lib.Rng, n int, readAll bool) []string {
 		}
 	}
 	bg := func() {
+		if r.Chance(1, 10) {
+			add("failnext") // the next table write of a flush or compaction fails: nothing is committed by that task
+		}
 		for i := r.Range(1, 5); i > 0; i-- {
 			add(lib.Pick(r, []string{"bg f", "bg f", "bg c", "bg c", "bg c"}))
 		}
@@ -701,8 +784,14 @@ func genDkvOps(r *lib.Rng, n int, parkReads, readAll bool) []string {
 			}
 			add("scan "+lib.Hex(p), false)
 		case x < 81:
+			if r.Chance(1, 8) {
+				add("failnext", false) // the next table write (of this flush, or of a compaction that comes first) fails
+			}
 			add("bg f", true)
 		case x < 92:
+			if r.Chance(1, 12) {
+				add("failnext", false)
+			}
 			add("bg c", true)
 		case x < 95:
 			if parkReads {
@@ -767,6 +856,13 @@ func c07Fixed() []lib.Case {
 		// an iterator is obtained, the flush of the memtable that holds the key commits, then the iterator is consumed:
 		// it must still yield the key (both snapshots belong to the call, not to the first pull)
 		{Header: "M C07 mem=200 l0=100", Ops: []string{"put " + k + " 01", "put " + z + " " + big, "scanget " + k, "bg f", "bg f", "scanrun", "scan " + k}, Tags: []string{"window-iter-held"}},
+		// a flush whose table write fails commits nothing: the sealed memtable stays readable, the next flush task
+		// writes both sealed memtables
+		{Header: "M C07 mem=200 l0=100", Ops: []string{"put " + k + " 01", "put " + z + " " + big, "failnext", "bg f", "get " + k, "scan -", "bg f",
+			"put " + k + " 02", "put " + z + " " + big, "bg f", "get " + k, "bg f", "get " + k, "scan -"}, Tags: []string{"flush-fails"}},
+		// a compaction whose table write fails commits nothing; a later compaction task does the work
+		{Header: "M C07 mem=200 l0=1", Ops: []string{"put " + k + " 01", "put " + z + " " + big, "bg f", "bg f", "failnext", "bg c", "get " + k, "scan -", "bg c",
+			"put " + k + " 02", "put " + z + " " + big, "bg f", "bg f", "bg c", "bg c", "bg c", "get " + k, "scan -"}, Tags: []string{"compaction-fails"}},
 	}
 }
 
